@@ -35,7 +35,7 @@ def run(tier):
 
     ck = Check("C08", tier)
     ck.assumptions += ASSUMPTIONS
-    br = common.build("C08")
+    br = common.build("C08", models=("lang", "blockstring"))
     ck.proofs(br)
     m = Model() if br.ok else None
     quick = tier == "quick"
@@ -169,6 +169,16 @@ def run(tier):
         if p1 != p2:
             ck.violation(key, "printing is not a fixed point", {"relation": "print(parse(print d)) == print d", "source": t, "printed": p1, "reprinted": p2})
     ck.count("documents", nd)
+    # block strings: exact-text correspondence of print_block_string / is_printable_as_block_string / lexed values
+    # with the Coq model the block theorems are about, and round trips at indentation levels 0-3
+    from . import cblock
+    rule0 = ck.rule
+    d = cblock._Distinct()
+    d.s = set(ck.nontrivial)
+    ck.nontrivial = d
+    cblock.core(ck, tier, br.ok)
+    ck.extra["block_rule"] = ck.rule
+    ck.rule = rule0 + " (e) block strings: see coverage.block_rule"
     ck.samples.append({"string": strs[len(strs) // 2]})
     ck.samples.append({"document": texts[-1][0][:200]})
     return ck.finish()
